@@ -51,6 +51,8 @@ fn text(max_long: usize) -> BoxedStrategy<String> {
         6 => "[a-zA-Z0-9_.:/ -]{1,12}",
         3 => proptest::collection::vec(any::<char>(), 0..12).prop_map(|v| v.into_iter().collect::<String>()),
         1 => Just("a\0b".to_string()),
+        // text that reads like a typed value: a reporter transmits it as the text it is
+        2 => proptest::sample::select(vec!["007", "+5", "-0", "42", "true", "false", "null", "1e3", "NaN", " 7", "0x1f", "1.50", "9223372036854775808", "TRUE", "[]", "{}", "\"q\""]).prop_map(|s| s.to_string()),
         1 => Just("😀𝔘é中\u{301}".to_string()),
         1 => (0usize..=max_long).prop_map(|n| "xyzé".repeat(n / 5)),
     ]
